@@ -1,12 +1,3 @@
 // ad-hoc probe (not used by any check)
-use qrlew::{ast, relation::{Relation, Variant as _}, sql::{parse, relation::QueryWithRelations}};
-fn tree(r: &Relation, d: usize) { println!("{}{} [{}]", " ".repeat(d * 2), r.name(), match r { Relation::Map(_) => "map", Relation::Reduce(_) => "reduce", Relation::Join(_) => "join", Relation::Table(_) => "table", _ => "other" }); for i in r.inputs() { tree(i, d + 1); } }
-fn main() {
-    let rels = qvh::s_sqlx::world2();
-    let sql = std::env::args().nth(1).unwrap();
-    let q = parse(&sql).unwrap(); let r1 = Relation::try_from(QueryWithRelations::new(&q, &rels)).unwrap();
-    println!("-- first generation"); tree(&r1, 0);
-    let t1 = ast::Query::from(&r1).to_string();
-    let q2 = parse(&t1).unwrap(); let r4 = Relation::try_from(QueryWithRelations::new(&q2, &rels)).unwrap();
-    println!("-- second generation"); tree(&r4, 0);
-}
+use qrlew::{relation::Relation, sql::{parse, relation::QueryWithRelations}};
+fn main() { let rels = qvh::s_sqlx::world2(); let sql = std::env::args().nth(1).unwrap(); let q = parse(&sql).unwrap(); let r = Relation::try_from(QueryWithRelations::new(&q, &rels)); println!("{:?}", r.map(|r| qvh::exec::render(&r))); }
